@@ -137,12 +137,26 @@ SPACE = {"o": "Occ", "v": "Virt", "g": "Gen"}
 
 def coq_term(ictx, term, scheme):
     neg, nums = numargs(term.prefactor)
-    syms = []
+    from adcgen.sympy_objects import SymbolicTensor, KroneckerDelta
+    syms, objs = [], []
     for o in term.objects:
-        if isinstance(o.base, Symbol):
-            ex = sympy.sympify(o.exponent)
-            exn = int(ex) if ex.is_Integer and ex > 0 else 0
-            syms.append(f"({coq_str(str(o.base))}, {exn}%nat)")
+        base, ex = o.base_and_exponent
+        ex = sympy.sympify(ex)
+        if o.sympy.is_number:
+            kind = "OkNumber"
+            ex = sympy.Integer(1)
+        elif not ex.is_Integer:
+            raise adcio.Unsupported(f"non-integer exponent {ex}")
+        if o.sympy.is_number:
+            pass
+        elif isinstance(base, Symbol):
+            kind = "OkSymbol"
+            syms.append(f"({coq_str(str(base))}, ({int(ex)})%Z)")
+        elif isinstance(base, (SymbolicTensor, KroneckerDelta)):
+            kind = "OkTensor"
+        else:
+            kind = "OkOther"
+        objs.append(f"({kind}, ({int(ex)})%Z)")
     spaces = adcio.coq_list(adcio.coq_list(SPACE[c] for c in o.space)
                             for o in term.objects)
     if scheme is None:
@@ -154,7 +168,8 @@ def coq_term(ictx, term, scheme):
     else:
         sch = coq_res(scheme[0])
     return (f"(CTerm {'true' if neg else 'false'} {adcio.coq_list(nums)} "
-            f"{adcio.coq_list(syms)} {'true' if term.idx else 'false'} "
+            f"{adcio.coq_list(syms)} {adcio.coq_list(objs)} "
+            f"{'true' if term.idx else 'false'} "
             f"{spaces} {sch})")
 
 
@@ -228,6 +243,71 @@ def coq_check_cases(obs, backend, requested):
         out.append(f"scheme_checks {coq_tnames()} {be} {req} "
                    + adcio.coq_list(coq_step(ictx, c) for c in steps))
     return out
+
+
+def coq_objs(term):
+    """[(okind, exponent)] literal for term.objects, as read by the loop at
+    the start of optimize_contractions / unoptimized_contraction"""
+    from adcgen.sympy_objects import SymbolicTensor, KroneckerDelta
+    objs = []
+    for o in term.objects:
+        base, ex = o.base_and_exponent
+        ex = sympy.sympify(ex)
+        if o.sympy.is_number:
+            kind, ex = "OkNumber", sympy.Integer(1)
+        elif not ex.is_Integer:
+            raise adcio.Unsupported(f"non-integer exponent {ex}")
+        elif isinstance(base, Symbol):
+            kind = "OkSymbol"
+        elif isinstance(base, (SymbolicTensor, KroneckerDelta)):
+            kind = "OkTensor"
+        else:
+            kind = "OkOther"
+        objs.append(f"({kind}, ({int(ex)})%Z)")
+    return adcio.coq_list(objs)
+
+
+def direct_guard_cases(obs, tstr, tspin, optimize):
+    """calls the scheme search directly on every term with indices (also on
+    those that generate_code refused earlier) -> [(str(term), coq term,
+    expected value)]: ties scheme_guard to the code"""
+    oc = sys.modules["adcgen.generate_code.optimize_contractions"]
+    f = oc.optimize_contractions if optimize else oc.unoptimized_contraction
+    tstr = tstr.replace(",", "")
+    if tspin is not None:
+        tspin = tspin.replace(",", "")
+    out = []
+    for _, terms in (obs.blocks or []):
+        for t in terms:
+            if not t.idx:
+                continue
+            try:
+                f(term=t, target_indices=tstr, target_spin=tspin)
+                want = "Ok tt"
+            except NotImplementedError:
+                want = "Refuse"
+            except Exception:
+                want = "Ok tt"     # not a refusal of the object loop
+            try:
+                out.append((str(t), f"scheme_guard {coq_objs(t)}", want))
+            except adcio.Unsupported:
+                pass
+    return out
+
+
+def coq_syms_case(obs):
+    """Coq term: all symbol exponents of all terms are non-negative
+    (hypothesis syms_nonneg of C17_prefactor_value_exact)"""
+    lists = []
+    for _, terms in (obs.blocks or []):
+        for t in terms:
+            sy = []
+            for o in t.objects:
+                base, ex = o.base_and_exponent
+                if isinstance(base, Symbol) and not o.sympy.is_number:
+                    sy.append(f"({coq_str(str(base))}, ({int(ex)})%Z)")
+            lists.append(adcio.coq_list(sy))
+    return f"forallb syms_nonneg {adcio.coq_list(lists)}"
 
 
 def parse_checks(val):
